@@ -27,8 +27,8 @@ BASES: List[Tuple[str, A.Atom]] = [
 def forms(tier: str) -> List[Tuple[A.Atom, Tuple[str, int], str]]:
     """(atom, (target kind, n), field): target 'abs' i / 'rel' k / 'self'."""
     out: List[Tuple[A.Atom, Tuple[str, int], str]] = []
-    idxs = (0, 1, 2) if tier == "quick" else (0, 1, 2, 15)
-    offs = (1, 2) if tier == "quick" else (1, 2, 15)
+    idxs = (0, 1, 2) if tier == "quick" else (0, 1, 15)
+    offs = (1, 2) if tier == "quick" else (1, 15)
     for read, atom in BASES:
         f = read[4:]
 
@@ -75,10 +75,9 @@ def items(tier: str) -> List[Any]:
         ["gtxn 0 TypeEnum", "int pay", "=="],
         ["txn GroupIndex", "int 1", "-", "gtxns Sender", f"addr {A.LIT1}", "=="],
     ]
-    if tier == "quick":
-        small = small[:5]
+    small = small[:5] if tier == "quick" else small[:3] + small[5:]
     small.append(["txn GroupIndex", "int 1", "=="])
-    l2 = 2 if tier == "quick" else 3
+    l2 = 2  # thorough differs by the full form alphabet (index 15, offset 15, all fields) and the pair layer
     for s in spaces.layered(full, small, tier, l2_size=l2, max_subs=1, fall_off=False, l2_top_alpha=None if tier == "quick" else 2):
         if s not in seen:
             seen.add(s)
